@@ -3,7 +3,8 @@ package harness
 import (
 	"context"
 	"log/slog"
-	"sync"
+
+	"verif/harness/sym"
 )
 
 // logRecord is one record handed to slog by the code under test.
@@ -16,7 +17,6 @@ type logRecord struct {
 }
 
 type logSink struct {
-	mu   sync.Mutex // records may arrive from concurrent requests
 	recs []logRecord
 	seq  int
 }
@@ -39,10 +39,10 @@ func (h captureHandler) WithAttrs([]slog.Attr) slog.Handler       { return h }
 func (h captureHandler) WithGroup(string) slog.Handler            { return h }
 
 func (h captureHandler) CaptureLog(level int, msg string, keys []string, vals []any) {
-	h.sink.mu.Lock()
-	h.sink.seq++
-	h.sink.recs = append(h.sink.recs, logRecord{level: level, msg: msg, keys: keys, vals: vals, seq: h.sink.seq})
-	h.sink.mu.Unlock()
+	sym.Atomic(func() {
+		h.sink.seq++
+		h.sink.recs = append(h.sink.recs, logRecord{level: level, msg: msg, keys: keys, vals: vals, seq: h.sink.seq})
+	})
 }
 
 func flattenAttr(prefix string, a slog.Attr, keys *[]string, vals *[]any) {
